@@ -142,14 +142,16 @@ CLAIMED = {
     ),
     "C18": (
         "other",
-        "Proved (49 obligations, z3 nonlinear reals over the real code): AlgebraicSigmoid |forward| < 1, inverse(forward(x)) = x, "
+        "Proved (124 obligations, z3 nonlinear reals over the real code): AlgebraicSigmoid |forward| < 1, inverse(forward(x)) = x, "
         "forward(inverse(y)) = y, ildj(y) = -fldj(inverse(y)); GaussianCopula.__init__ raises for no dependence in (-1,1) with either value "
         "of validate_args and builds scale_tril [[1,0],[rho,sqrt(1-rho^2)]] (LL' = correlation matrix) under NormalCDF; the closed-form copula "
         "density as a lemma over the TFP contracts; from_penalty(var) and from_penalty_smooth(1/var) pass the same rank and "
         "log_pdet(K) - rank*log(var) (rank / log_pdet given or derived); _log_prob = -q/2 - (rank*log(2pi) - log_pdet)/2. BOUNDED (numeric): "
         "ldj = log-derivative, eigenvalue selection in _log_pdet, null-space invariance, range-space density incl. tiny eigenvalues with "
-        "supplied rank, batches. Sampling clauses (samples in the range space, uniform marginals) are distributional: not applicable to this "
-        "family and not claimed.",
+        "supplied rank, batches. Sampling: the REAL __init__ / from_penalty / from_penalty_smooth / eig / _sqrt_pcov / _sample_n are under contract "
+        "(C18.mvn_degen_sampling_factor: S = Q diag(s) over the eigendecomposition of the object's own precision, s_i = 0 below the tolerance, "
+        "s_i^2 ev_i = 1 above it, sample = reshape(S @ normal(seed, [n,d,1])) + loc); that normal() is iid standard normal and eigh a "
+        "decomposition is trusted, the distributional conclusion (uniform marginals of the copula included) is not claimed.",
         "A-REAL; log laws as ground instances; TFP closed forms (A-TFP); quadratic form and eigenvalues uninterpreted in the proof.",
         "contract-based deductive verification (own VC generator over the real source -> z3 nlsat) + bounded numeric grids for calculus / eigen-decomposition clauses",
         "DESIGN.md §3 C18",
